@@ -2271,7 +2271,7 @@ class CxxParser:
                     msvc_convention = msvc_convention_tok.value
 
                 # Check to see if this is a grouping paren or something else
-                if not self.lex.token_peek_if("*", "&"):
+                if not self.lex.token_peek_if("*", "&", "DBL_AMP"):
                     self.lex.return_token(tok)
                     break
 
